@@ -44,7 +44,7 @@ DoNotifyRet == \E n \in c.nots : NotifyCanRet(c, n) /\ c' = NotifyRet(c, n) /\ U
 DoRegCall ==
     \E t \in Towers :
        /\ c.alive /\ b.reg < MaxReg /\ \A g \in c.regs : g.t # t
-       /\ c' \in RegCall(c, t, t)
+       /\ c' \in RegCall(c, t, t, 0)
        /\ b' = [b EXCEPT !.reg = @ + 1]
 
 DoRegRet == \E g \in c.regs : g.pc \in {"ok", "err"} /\ c' = RegRet(c, g) /\ UNCHANGED b
